@@ -30,24 +30,52 @@ var work = filepath.Join(vlib.VerifDir, ".work", "c15")
 
 var dxfMu sync.Mutex
 
-type scripted3 struct{ ts []*sdf.Triangle3 }
+// scripted renderers: one item per Write unless a chunk pattern is given (the pattern is repeated until the
+// list is exhausted; chunks of the size of the internal buffers and larger exercise the writers' batching)
+type scripted3 struct {
+	ts     []*sdf.Triangle3
+	chunks []int
+}
 
 func (s scripted3) Render(_ sdf.SDF3, out sdf.Triangle3Writer) {
-	for i := range s.ts {
-		out.Write(s.ts[i : i+1])
+	for i, k := 0, 0; i < len(s.ts); k++ {
+		n := 1
+		if len(s.chunks) > 0 {
+			n = s.chunks[k%len(s.chunks)]
+		}
+		if i+n > len(s.ts) {
+			n = len(s.ts) - i
+		}
+		out.Write(s.ts[i : i+n])
+		i += n
 	}
 	out.Close()
 }
 func (s scripted3) Info(sdf.SDF3) string { return "scripted" }
 
-type scripted2 struct{ ls []*sdf.Line2 }
+type scripted2 struct {
+	ls     []*sdf.Line2
+	chunks []int
+}
 
 func (s scripted2) Render(_ sdf.SDF2, out sdf.Line2Writer) {
-	for i := range s.ls {
-		out.Write(s.ls[i : i+1])
+	for i, k := 0, 0; i < len(s.ls); k++ {
+		n := 1
+		if len(s.chunks) > 0 {
+			n = s.chunks[k%len(s.chunks)]
+		}
+		if i+n > len(s.ls) {
+			n = len(s.ls) - i
+		}
+		out.Write(s.ls[i : i+n])
+		i += n
 	}
 	out.Close()
 }
+
+// chunk patterns for the long lists (buffer thresholds: 256 triangles, 128 segments)
+var chunkPatterns = [][]int{{3, 130, 2}, {1, 128, 131}, {127, 2, 271}, {129, 129}, {256, 1, 3}, {3, 260, 127}, {5, 0, 300}, {600}}
+
 func (s scripted2) Info(sdf.SDF2) string { return "scripted" }
 
 type dummy3 struct{}
@@ -121,12 +149,24 @@ func main() {
 		T(p(0, 1, 0), p(1, 0, 0), p(0, 0, 0)),          // the first one with reversed winding
 	}
 	l3 := lists(menu3, vlib.Pick(c, 3, 4))
+	chunk3 := map[int][]int{}
+	for pi, pat := range chunkPatterns {
+		for _, n := range []int{135, 390, 700} {
+			var ts []*sdf.Triangle3
+			for k := 0; k < n; k++ {
+				f := float64(k)
+				ts = append(ts, T(p(f, 0, 0), p(f+0.5, 1+float64(k%3), 0), p(f, 0, 1+float64(pi))))
+			}
+			chunk3[len(l3)] = pat
+			l3 = append(l3, ts)
+		}
+	}
 	states += c.ParFor(len(l3), func(i int) {
 		ts := l3[i]
 		path := filepath.Join(work, fmt.Sprintf("m.%d.3mf", i))
 		defer os.Remove(path)
-		render.To3MF(dummy3{}, path, scripted3{ts})
-		desc := map[string]any{"format": "3mf", "list_index": i, "triangles": ts}
+		render.To3MF(dummy3{}, path, scripted3{ts, chunk3[i]})
+		desc := map[string]any{"format": "3mf", "list_index": i, "triangles": ts, "write_chunks": chunk3[i]}
 		r, err := go3mf.OpenReader(path)
 		if err != nil {
 			c.Violation("3mf|unreadable", fmt.Sprintf("3MF written for %d triangles cannot be opened: %v", len(ts), err), desc)
@@ -207,10 +247,22 @@ func main() {
 		L(-7, -3, -9, -5),
 	}
 	l2 := lists(menu2, vlib.Pick(c, 3, 4))
+	chunk2 := map[int][]int{}
+	for pi, pat := range chunkPatterns {
+		for _, n := range []int{135, 390, 700} {
+			var ls []*sdf.Line2
+			for k := 0; k < n; k++ {
+				f := float64(k)
+				ls = append(ls, L(f, float64(pi), f+0.5, 1+float64(k%3)))
+			}
+			chunk2[len(l2)] = pat
+			l2 = append(l2, ls)
+		}
+	}
 	states += c.ParFor(len(l2)*2, func(i int) {
 		ls := l2[i/2]
 		batch := i%2 == 1
-		desc := map[string]any{"list_index": i / 2, "batch_writer": batch, "segments": ls}
+		desc := map[string]any{"list_index": i / 2, "batch_writer": batch, "segments": ls, "write_chunks": chunk2[i/2]}
 		// DXF
 		dp := filepath.Join(work, fmt.Sprintf("d.%d.dxf", i))
 		defer os.Remove(dp)
@@ -224,7 +276,7 @@ func main() {
 				return
 			}
 		} else {
-			render.ToDXF(dummy2{}, dp, scripted2{ls})
+			render.ToDXF(dummy2{}, dp, scripted2{ls, chunk2[i/2]})
 		}
 		d, err := dxf.FromFile(dp)
 		dxfMu.Unlock()
@@ -269,7 +321,7 @@ func main() {
 				return
 			}
 		} else {
-			render.ToSVG(dummy2{}, sp, scripted2{ls})
+			render.ToSVG(dummy2{}, sp, scripted2{ls, chunk2[i/2]})
 		}
 		b, err := os.ReadFile(sp)
 		if err != nil {
@@ -327,7 +379,7 @@ func main() {
 		Rule:        "states = (list, writer path) pairs written and decoded with go3mf.OpenReader / dxf.FromFile / encoding/xml; transitions = vertices / lines compared; non-trivial = non-empty lists",
 		Samples:     samples,
 		Exhaustive:  true,
-		Bounds:      map[string]any{"menu_size": 8, "list_length": "0..3 (4 thorough), with repetition, ordered"},
+		Bounds:      map[string]any{"menu_size": 8, "list_length": "0..3 (4 thorough), with repetition, ordered; plus numbered lists of 135 / 390 / 700 items written in 8 chunk patterns around the buffer thresholds (128 segments, 256 triangles)"},
 		Assumptions: []string{"3MF vertices are compared with a tolerance of 1.5e-4 (four decimals plus the 1e-6 de-duplication grid of the mesh builder)", "DXF coordinates to the format's six decimals, SVG to its two decimals"},
 	})
 }
